@@ -334,6 +334,103 @@ def uniseg_engine(run, tier, seed):
     lineengine.run_engine("uniseg", [str(seed)] + (["20000", "1"] if tier == "thorough" else ["3000", "16"]), describe, run, timeout=3000)
 
 
+def spanterm_compare(run, txt):
+    """Run implementation and span-terminal model on the cases of [txt] (headers already carry the raw-span flag) and
+    compare.  A difference in a record the property speaks about (cells, headers, replies, registers, callbacks,
+    regions) is a violation with the case as replay.  A difference only in how the row is STORED (record 11: span
+    boundaries, fill runes, cached width) breaks the correspondence without showing a property failure: it is collected
+    in run.corr_broken and reported as `no-failing-input-found` when nothing else fails."""
+    import core
+    names = dict(REC_NAMES_SPAN)
+    impl_txt, dead = core.run_impl(txt, core.BUILD)
+    impl = core.parse_output(impl_txt)
+    model = core.parse_output(core.run_model(txt))
+    for cid, why in dead:
+        run.add_violation("implementation died", "%s: %s" % (cid, why), txt, cid, None)
+    for cid, m in model.items():
+        i = impl.get(cid)
+        if i is None:
+            continue
+        run.stats["spanterm_cases"] += 1
+        n_ops = min(len(i["ops"]), len(m["ops"]))
+        raw_reported = False
+        for k in range(n_ops):
+            io, mo = i["ops"][k], m["ops"][k]
+            run.stats["spanterm_ops"] += 1
+            if io[0][2] != mo[0][2]:
+                run.add_violation("crash", "span terminal model, op %d: model crash=%d implementation crash=%d" % (k, mo[0][2], io[0][2]), txt, cid, k)
+                break
+            if mo[0][2]:
+                break
+            bad = None
+            i11 = [r for r in io if r[0] == 11]
+            m11 = [r for r in mo if r[0] == 11]
+            iother = [r for r in io if r[0] not in (1, 11)]
+            mother = [r for r in mo if r[0] not in (1, 11)]
+            if len(iother) != len(mother):
+                bad = ("record count", [len(mother)], [len(iother)])
+            else:
+                for a, b in zip(iother, mother):
+                    if a != b:
+                        bad = ("record %d (%s)" % (a[0], names.get(a[0], "?")), b, a)
+                        break
+            if bad:
+                run.add_violation("mismatch", "span terminal model, op %d: %s differs" % (k, bad[0]), txt, cid, k,
+                                  expected=bad[1], actual=bad[2])
+                break
+            run.stats["spanterm_rows"] += len(m11)
+            if i11 != m11 and not raw_reported:
+                raw_reported = True
+                d = next(((a, b) for a, b in zip(i11, m11) if a != b), (i11[-1:] or None, m11[-1:] or None))
+                if not hasattr(run, "corr_broken"):
+                    run.corr_broken = []
+                run.corr_broken.append({"correspondence": "span-terminal model, raw span structure (Model/SpanScreen.v vs spanScreen rows)",
+                                        "what": "op %d: the row is stored differently (record 11: spans as stored, cached width) while every cell, header, "
+                                                "reply and callback agrees" % k, "case": cid, "op": k,
+                                        "case_text": check_case_lines(txt, cid), "expected": d[1], "actual": d[0]})
+        else:
+            if len(i["ops"]) != len(m["ops"]) and not i.get("extra"):
+                run.add_violation("mismatch", "span terminal model: number of operations observed differs", txt, cid, n_ops)
+
+
+def check_case_lines(txt, cid):
+    import core
+    for i, t in core.split_cases(txt):
+        if i == cid:
+            return t
+    return ""
+
+
+def spanterm_engine(run, tier, seed):
+    """C20/C02: the whole-screen span model (Model/SpanScreen.v, the model span_simulates_cells is about) against
+    the real read loop on the span buffer, per operation, in the RAW representation: every row's list of spans
+    (style, text bytes, fill rune, width) and cached width, plus headers, cells (through the abstraction function),
+    replies, registers, strings, callback digest and the announced regions in order.  Nothing is excused: the span
+    model is a transcription of the code and carries no known-finding mark."""
+    import re
+    import core
+    plan = [("mixed", 200, 1500), ("stepall", 150, 1000), ("c03", 100, 600), ("c05", 80, 500), ("c06", 80, 500), ("c18", 80, 500),
+            ("c08", 80, 500), ("hostile", 80, 500), ("c17", 40, 300)]
+    import json, os
+    import witness as wit
+    cpath = os.path.join(core.VERIF, "corpus", "spanterm", "cases.json")
+    if os.path.exists(cpath):
+        ctxt = "".join(wit.case_text(w) for w in json.load(open(cpath)))
+        ctxt = re.sub(r"^(100 \d+ \d+ \d+ \d+)( \d+)?$", lambda m: m.group(1) + " 0 1", ctxt, flags=re.M)
+        spanterm_compare(run, ctxt)
+    for profile, q, th in plan:
+        n = th if tier == "thorough" else q
+        txt = core.gen_cases(profile, seed + 77, n, "0", "0")
+        txt = re.sub(r"^(100 \d+ \d+ \d+ \d+)( \d+)?$", lambda m: m.group(1) + " 0 1", txt, flags=re.M)
+        spanterm_compare(run, txt)
+    run.samples.append({"engine": "spanterm", "cases": run.stats["spanterm_cases"], "operations": run.stats["spanterm_ops"],
+                        "rows_compared_raw": run.stats["spanterm_rows"]})
+
+
+REC_NAMES_SPAN = {2: "screen header", 3: "row cells via the abstraction function", 4: "reply bytes", 5: "registers", 6: "view strings",
+                  7: "callback digest", 8: "announced regions, in order", 10: "reader state", 11: "raw spans of a row and cached width"}
+
+
 PROPS = {
     "C01": {"tags": [2], "ppref": ("C01",), "batches": [
         B("hostile", 500, 3000, tags=[]), B("mixed", 300, 1800, tags=[]), B("hostile", 150, 900, modes="1", tags=[]),
@@ -343,7 +440,7 @@ PROPS = {
         B("mixed", 500, 3000), B("hostile", 300, 1800, tags=[2]), B("stepall", 200, 1200, step=True),
         B("c18", 200, 1200),
         B("gclusters", 200, 1200, modes="1", tags=SCREEN + [10])],   # grapheme mode: clusters, marks, joiners, selectors, flags and their pieces, cut anywhere
-        "extra": [span_engine]},
+        "extra": [span_engine, spanterm_engine]},
     "C03": {"tags": SCREEN, "ppref": ("C03", "C02"), "batches": [
         B("c03", 150, 900, step=True, kinds_wanted=[1], modes="1", tags=SCREEN + [10]),
         B("gclusters", 150, 900, modes="1", tags=SCREEN + [10]),
@@ -380,5 +477,6 @@ PROPS = {
         B("c18", 400, 2400, step=True, kinds_wanted=[11]), B("c18", 150, 900)]},
     "C19": {"tags": [4, 5], "ppref": ("C19",), "batches": [B("c19", 800, 4800)]},
     "C20": {"tags": SCREEN, "ppref": ("C20",), "batches": [B("mixed", 800, 4800), B("stepall", 400, 2400, step=True),
-                                                            B("gclusters", 150, 900, modes="1")]},
+                                                            B("gclusters", 150, 900, modes="1")],
+            "extra": [spanterm_engine]},
 }
